@@ -189,7 +189,7 @@ def run_op(op, n, seed, tier, extra=()):
     try:
         with open(tmp.name, 'w') as f:
             p = subprocess.run([vh, op, '-n', str(n), '-seed', str(seed), '-tier', tier, *extra], stdout=f, stderr=subprocess.PIPE, text=True, timeout=7200,
-                               env=dict(GOENV, VERIF_PP=os.path.join(BUILD, 'pp')))
+                               env=dict(GOENV, VERIF_PP=os.path.join(BUILD, 'pp'), VERIF_ROOT=VERIF))
         if p.returncode != 0:
             raise RuntimeError('vh %s failed: %s' % (op, p.stderr[-500:]))
         with open(tmp.name) as f:
@@ -217,7 +217,7 @@ def relevant(flags, spec):
     out = []
     for f in flags:
         if f.startswith('prop:'):
-            if any(f == 'prop:' + p or f.startswith('prop:' + p + ':') for p in spec['prop']):
+            if any(f == 'prop:' + p or f.startswith('prop:' + p + ':') or (':' in p and f.startswith('prop:' + p)) for p in spec['prop']):
                 out.append(f)
         elif f.startswith('corr:'):
             if f in spec['corr'] or any(f.startswith(c + ':') for c in spec['corr']):
@@ -227,6 +227,20 @@ def relevant(flags, spec):
         elif f == 'impl:panic' and spec.get('panic_relevant', True):
             out.append(f)
     return out
+
+
+def witness_still_fails(kid):
+    vh = os.path.join(BUILD, 'vh')
+    p = subprocess.run([vh, 'witness', '-mix', kid], stdout=subprocess.PIPE, stderr=subprocess.PIPE, text=True,
+                       env=dict(GOENV, VERIF_ROOT=VERIF))
+    if p.returncode != 0:
+        return False
+    q = subprocess.run([os.path.join(BUILD, 'driver')], input=p.stdout, stdout=subprocess.PIPE, text=True)
+    for line in q.stdout.split('\n'):
+        parts = line.split('\t')
+        if len(parts) >= 3 and ('known:' + kid) in parts[2].split(','):
+            return True
+    return False
 
 
 def load_known(prop):
@@ -358,10 +372,15 @@ def main():
 
     # ---- 3. verdict ----
     violations = []
+    known_status = {}
     for k in known:
         kid = k.get('id', '?')
-        if kid in known_hits:
-            print('KNOWN-FINDING: property=%s %s' % (prop, k['text'].split(' ', 2)[2] if len(k['text'].split(' ', 2)) > 2 else k['text']))
+        # replay the recorded witness on the implementation: still failing?
+        still = witness_still_fails(kid)
+        known_status[kid] = {'witness_still_fails': still, 'hits_in_generated_cases': len(known_hits.get(kid, []))}
+        if still or kid in known_hits:
+            what = k['text'].split('witness=', 1)[-1].split(' ', 1)[-1]
+            print('KNOWN-FINDING: property=%s id=%s %s' % (prop, kid, what))
     if failures:
         op, cid, fields, rel, detail = failures[0]
         path = write_replay(prop, seed, op, cid, fields, rel, 'property predicate false on implementation output / crash: ' + detail)
@@ -408,7 +427,7 @@ def main():
             'evaluations': total, 'distinct_nontrivial': len(nontrivial),
             'rule': spec.get('rule', ''), 'samples': samples, 'ops': op_stats, 'tag_histogram': dict(sorted(tag_hist.items())),
             'correspondence_mismatches_on_projection': len(corr_only), 'property_failures': len(failures),
-            'known_findings_reported': sorted(known_hits.keys()), 'fixed_findings': fixed,
+            'known_findings_reported': known_status, 'fixed_findings': fixed,
             'coqchk': coqchk,
         },
         'assumptions': spec.get('assumptions', []),
